@@ -82,6 +82,9 @@ def cliMethod (c : CliCfg) (m : MethodD) : MethodS :=
     ret := cliTypenameO c m.ret m.isAsync, name := convert c.methodStyle m.name,
     params := m.params.map (cliParam c), post := if m.isStatic then [] else ["abstract"] }
 
+def cliCode (c : CliCfg) (k : CodeD) : CodeS :=
+  { name := convert c.tyStyle k.name, fields := k.params.map (cliProperty c), ctor := k.params.map (cliPlainParam c) }
+
 def cliSkel (c : CliCfg) : Decl → DeclS
   | .enum u items =>
     { DeclS.empty with
@@ -106,6 +109,6 @@ def cliSkel (c : CliCfg) : Decl → DeclS
   | .error u codes =>
     { DeclS.empty with
       kind := "error", name := cliDeclName c u, scope := cliNamespace c u.ns,
-      codes := codes.map (fun k => { name := convert c.tyStyle k.name, fields := k.params.map (cliProperty c), ctor := k.params.map (cliPlainParam c) }) }
+      codes := codes.map (cliCode c) }
 
 end Pydjinni.Gen
